@@ -188,7 +188,12 @@ mpz_inp_raw(mpz_ptr x, FILE *fp)
     if (out->writtenSize != 0)
     {
         if (fread(out->written, out->writtenSize, 1, fp) != 1)
+        {
+            /* mpz_inp_raw_p has set the size for the data that did not come:
+               leave a well-formed zero rather than unnormalised limbs */
+            SIZ(x) = 0;
             return 0;
+        }
 
         mpz_inp_raw_m(x, out);
     }
